@@ -13,9 +13,13 @@ var faultRates = []int{0, 8, 48} // out of simrt.FaultDen; index 0 = none
 func drawPoolEnv(rc *runCtx) string {
 	s := rc.sim
 	s.Policy = s.Sched.Draw(simrt.NumPolicies)
-	s.PutDropNum = faultRates[s.Sched.Draw(len(faultRates))]
-	s.MissNum = faultRates[s.Sched.Draw(len(faultRates))]
-	s.GCNum = faultRates[s.Sched.Draw(len(faultRates))] / 2
+	// About a quarter of the runs are fault-free, tallied separately (no oracle
+	// is relaxed under faults: a dropped object just means more fresh ones).
+	if s.Sched.Draw(4) != 0 {
+		s.PutDropNum = faultRates[s.Sched.Draw(len(faultRates))]
+		s.MissNum = faultRates[s.Sched.Draw(len(faultRates))]
+		s.GCNum = faultRates[s.Sched.Draw(len(faultRates))] / 2
+	}
 	rc.tally("pool_policy", simrt.PolicyNames[s.Policy])
 	ff := s.PutDropNum == 0 && s.MissNum == 0 && s.GCNum == 0
 	if ff {
@@ -101,9 +105,9 @@ func (h *H[T]) C10(rc *runCtx) *Violation {
 			}
 			after := snapshotFull(o.cur)
 			if at, ok := sameSnap(snaps[i], after); !ok {
-				return &Violation{"shared-storage", spA(
+				return violf("shared-storage",
 					"%s on outstanding buffer #%d changed outstanding buffer #%d at full-capacity position %d: buffers checked out at the same time share storage",
-					what, hb.serial, o.serial, at)}
+					what, hb.serial, o.serial, at)
 			}
 		}
 		return nil
@@ -116,11 +120,11 @@ func (h *H[T]) C10(rc *runCtx) *Violation {
 		b, pv := get(handle)
 		rc.ops++
 		if pv != nil {
-			return &Violation{"get-panic", spA("Get panicked: %v", pv)}
+			return violf("get-panic", "Get panicked: %v", pv)
 		}
 		for _, o := range out {
 			if o.hdr == b || o.cur == b {
-				return &Violation{"same-buffer-twice", spA("Get returned the buffer that is still checked out as #%d", o.serial)}
+				return violf("same-buffer-twice", "Get returned the buffer that is still checked out as #%d", o.serial)
 			}
 		}
 		serial++
@@ -130,7 +134,7 @@ func (h *H[T]) C10(rc *runCtx) *Violation {
 		sim.Tracef("op: Get via handle %d -> buffer #%d (obj#%d)", handle, serial, id)
 		if v := freshCheck(a, b); v != nil {
 			if rec, ok := putHist[id]; ok {
-				v.Detail += spA(" [this buffer was put back earlier; history before that put: %+v]", rec.hs)
+				v.Detail = spA(" [this buffer was put back earlier; history before that put: %+v]", rec.hs)
 			}
 			return v
 		}
@@ -206,9 +210,6 @@ func (h *H[T]) C10(rc *runCtx) *Violation {
 			sim.Tracef("    Put rejected: %v", pv)
 		} else if sim.Counters[simrt.CtPoolPut] > putsBefore {
 			putHist[id] = putRec{hb.hs, handle}
-			if hb.hs.grew {
-				rc.probes[pGrownSameCapPut]++
-			}
 			if sim.Available() > 0 {
 				gcSinceEmpty = false
 			}
@@ -245,17 +246,17 @@ func (h *H[T]) C10(rc *runCtx) *Violation {
 				peer = out[(i+1)%len(out)].cur
 			}
 			sim.Mix(0xc000 | uint64(u.kind))
-			var desc string
 			grewBefore := hb.hs.grew
 			v := crosstalk(hb, useNames[u.kind], func() {
-				desc, _ = h.applyUse(&hb.cur, u, peer, &hb.hs, nil)
+				h.applyUse(&hb.cur, u, peer, &hb.hs, nil, func(format string, args ...any) {
+					sim.Tracef("op: use #%d: "+format, append([]any{hb.serial}, args...)...)
+				})
 			})
 			rc.ops++
 			rc.tally("use_op", useNames[u.kind])
 			if hb.hs.grew && !grewBefore {
 				rc.probes[pGrownAppend]++
 			}
-			sim.Tracef("op: use #%d: %s", hb.serial, desc)
 			if v != nil {
 				return v
 			}
